@@ -273,7 +273,7 @@ def histories(model, info, art):
                     await b.suspend_monitors()
                 elif op == "restore":
                     await b.restore_monitors()
-                    if getattr(b, "_monitors_suspended", False):
+                    if info.get("clause") == "c41" and getattr(b, "_monitors_suspended", False):
                         bad.append("restore_monitors left the monitors flagged as suspended")
                 elif op == "clear_monitors":
                     b.clear_monitors()
@@ -287,6 +287,13 @@ def histories(model, info, art):
                 await b.restore_monitors()
                 if sig.cbs or sig2.cbs or b._monitor_params:
                     bad.append(f"after {op}: subscriptions left {len(sig.cbs)}/{len(sig2.cbs)}, monitors left {len(b._monitor_params)}")
+            elif info.get("clause") == "c41":
+                # C41: while the engine runs (not suspended) every monitor holds exactly one subscription
+                if not getattr(b, "_monitors_suspended", False) or op == "restore" or op.startswith("monitor"):
+                    for d in (sig, sig2):
+                        want = 1 if d in b._monitor_params else 0
+                        if op != "suspend" and len(d.cbs) != want:
+                            bad.append(f"after {op}: {d.name} holds {len(d.cbs)} subscription(s), expected {want} (the engine is running again)")
             else:
                 inv(op)
     asyncio.run(go())
